@@ -66,7 +66,9 @@ def main():
         f.write("# Independently seeded breaking changes\n\n")
         f.write("Each directory holds `patch.diff` (apply with `git -C /repo apply`), the demonstration test (`demo_test.go`, copied into the package named in `meta.json`), the author's `notes.md` and `meta.json` (what was run to confirm it, which checks report it). ")
         f.write("All changes compile, pass the unedited 303-test suite and make their demonstration fail; the demonstration passes on the unmodified tree. Produced by fresh sub-agents that saw only the property text.\n\n")
-        f.write("| change | property | what it breaks (needs) | reported by |\n|---|---|---|---|\n")
+        fp = json.load(open("/verif/seeded/first_pass.json")) if os.path.exists("/verif/seeded/first_pass.json") else {}
+        f.write("`first pass` is what the checks reported when the change was first validated, i.e. before any check was strengthened because of it (`-` = nothing): the honest measure of how the machinery generalises to changes it has not seen. `reported by` is the current state.\n\n")
+        f.write("| change | property | what it breaks (needs) | first pass | reported by |\n|---|---|---|---|---|\n")
         for seed, meta in rows:
             title = ""
             np = os.path.join("/verif/seeded", seed, "notes.md")
@@ -77,7 +79,17 @@ def main():
                         title = l.lstrip("# ").strip(); break
             rep = "; ".join(f"{k}: {', '.join(v['rules'])}" for k, v in meta["checks_reporting"].items() if isinstance(v, dict) and "rules" in v) or "**none**"
             own = "" if meta.get("detected_by_own_property_check") else " (own property's check silent)"
-            f.write(f"| {seed} | {meta['property']} | {title} | {rep}{own} |\n")
+            first = fp.get(seed, {}).get("reporting")
+            firsts = "?" if first is None else ("; ".join(f"{k}: {', '.join(v)}" for k, v in first.items()) or "-")
+            f.write(f"| {seed} | {meta['property']} | {title} | {firsts} | {rep}{own} |\n")
+    if os.path.exists("/verif/seeded/first_pass.json"):
+        fp = json.load(open("/verif/seeded/first_pass.json"))
+        with open("/verif/seeded/INDEX.md", "a") as f:
+            for tag, name in (("", "round 1"), ("-r2", "round 2"), ("-r3", "round 3")):
+                ks = [k for k in fp if (("-r" not in k) if tag == "" else (tag in k))]
+                if ks:
+                    f.write(f"\n{name}: {len(ks)} changes, first pass reported {sum(1 for k in ks if fp[k]['reporting'])} ({sum(1 for k in ks if fp[k]['own'])} by the change's own property check).")
+            f.write("\n")
     det = sum(1 for _, m in rows if m.get("detected_by_any_check"))
     own = sum(1 for _, m in rows if m.get("detected_by_own_property_check"))
     print(f"{len(rows)} changes, {det} reported by some check, {own} by their own property's check")
